@@ -1,0 +1,36 @@
+//go:build verif
+
+package dbft
+
+import "slices"
+
+// VerifReplayOrder, when set by a verification harness, chooses the order in
+// which cached payloads of one category (0 prepare, 1 change view, 2 preCommit,
+// 3 commit) are replayed by initializeConsensus. It receives the ascending list
+// of validator indexes and returns a permutation of it.
+var VerifReplayOrder func(category int, idx []uint16) []uint16
+
+// verifReplay delivers the cached payloads category by category (the same
+// category order as the loops in initializeConsensus) in a harness-chosen order
+// instead of Go's randomized map order, removing each from its map so that the
+// original loops have nothing left to iterate over.
+func (d *DBFT[H]) verifReplay(msgs *inbox[H]) {
+	for cat, mp := range []map[uint16]ConsensusPayload[H]{msgs.prepare, msgs.chViews, msgs.preCommit, msgs.commit} {
+		keys := make([]uint16, 0, len(mp))
+		for k := range mp {
+			keys = append(keys, k)
+		}
+		slices.Sort(keys)
+		if VerifReplayOrder != nil {
+			keys = VerifReplayOrder(cat, keys)
+		}
+		for _, k := range keys {
+			m, ok := mp[k]
+			if !ok {
+				continue
+			}
+			delete(mp, k)
+			d.OnReceive(m)
+		}
+	}
+}
